@@ -142,14 +142,24 @@ def pool_kwargs(scn, backend, ctx_factory):
 def build_pool(scn, world, sync):
     from .backends import ABackend, SBackend, SSLContext
 
-    backend = SBackend(world) if sync else ABackend(world)
+    if scn.get("seam") == "L2":
+        # the pool builds its own (real) backend; fakes sit below it (sim/l2.py)
+        from .l2 import L2SSLContext
+
+        backend = None
+        ctxf = (lambda name: L2SSLContext(name)) if sync else (lambda name: SSLContext(name))
+    else:
+        backend = SBackend(world) if sync else ABackend(world)
+        ctxf = lambda name: SSLContext(name)  # noqa: E731
     world.backend = backend
-    kw, px = pool_kwargs(scn, backend, lambda name: SSLContext(name))
+    kw, px = pool_kwargs(scn, backend, ctxf)
+    if backend is None:
+        kw.pop("network_backend", None)
     if px is not None:
         style = px.get("style", "proxy_arg")
         auth = tuple(px["auth"]) if px.get("auth") else None
         headers = [tuple(h) for h in px.get("headers", [])] or None
-        pctx = SSLContext("proxy") if px["url"].startswith("https") else None
+        pctx = ctxf("proxy") if px["url"].startswith("https") else None
         if style == "proxy_arg":
             kw["proxy"] = httpcore.Proxy(px["url"], auth=auth, headers=headers,
                                          ssl_context=pctx)
